@@ -312,10 +312,15 @@ func checkC02(c *C02Case) Result {
 		return res
 	}
 	d := diffRows(out.Rows, want)
-	if d != "" && hasKind(c.Items, "tilde") {
-		want2, err := refProject(rows, c.Items, c.Star, c.Where, &sq.Env{Doc: c.Doc, UnsignedTilde: true})
-		if err == nil && diffRows(out.Rows, want2) == "" {
-			d = ""
+	if d != "" && (hasKind(c.Items, "tilde") || hasKind(c.Items, "tilde2")) {
+		// the statement does not choose between the readings of ~ (two's complement or unsigned; fractional
+		// operands truncated or rounded): one reading must explain the whole result
+		for _, env := range []*sq.Env{{Doc: c.Doc, UnsignedTilde: true}, {Doc: c.Doc, TildeRound: true}, {Doc: c.Doc, UnsignedTilde: true, TildeRound: true}} {
+			want2, err := refProject(rows, c.Items, c.Star, c.Where, env)
+			if err == nil && diffRows(out.Rows, want2) == "" {
+				d = ""
+				break
+			}
 		}
 	}
 	if d != "" {
